@@ -49,7 +49,10 @@ var SEQ = (function(){
     case "frozen": o = {x:1}; Object.defineProperty(o,"g",{get:F1,configurable:true}); return Object.freeze(o);
     case "arr": return [1,2,3];
     case "sparse": o = [1,,3]; o.x = 5; return o;
-    case "fn": o = function(a){ return (a|0)+1; }; o.x = 1; o.prototype; Reflect.ownKeys(o); return o;
+    case "fn": o = function(a){ return (a|0)+1; }; o.x = 1;
+      // funcObject creates 'prototype' lazily: its position among the own keys depends on whether the keys were listed
+      // before a later property was added (still reproduces after d5289af; design/C11.md §4).  Materialise it in both twins.
+      Reflect.ownKeys(o); return o;
     case "args": return (function(a,b){ return arguments; })(1,2);
     case "margs": return (function(a,b){ "non-strict-marker"; return arguments; }).call(null,1,2);
     case "ta": return new Uint8Array([1,2,3]);
